@@ -49,7 +49,7 @@ def run(res, replay=None):
         for i in range(nspec):
             specs.append(gen.rand_spec(rng, n_total=rng.choice([2, 3, 3, 4] if res.tier == 'quick' else [2, 3, 4, 4, 5]),
                                        n_demes=rng.choice([1, 2, 2, 3]) , n_epochs=rng.choice([1, 2, 3, 4]),
-                                       size_range=(-3, 3)))
+                                       size_range=(-3, 3), mig_only_boundary=(i % 3 == 0)))
     cases = []
     for s in specs:
         ops = build_ops(rng, s)
